@@ -464,10 +464,7 @@ Loop:
 
 func packTxt(txt []string, msg []byte, offset int) (int, error) {
 	if len(txt) == 0 {
-		if offset >= len(msg) {
-			return offset, ErrBuf
-		}
-		msg[offset] = 0
+		// No strings, no RDATA: nothing to write, as Len() says.
 		return offset, nil
 	}
 	var err error
